@@ -201,6 +201,29 @@ def run(ctx):
                    f'the handler loop must run over 0..len(handler column) ({len(rngs)} range(s) examined)',
                    [site(bd, rngs[0][0])] if rngs else [])
 
+    # R5 ----------------------------------------------------------------------------------------------
+    R5 = 'C07-R5'
+    ctx.rule(R5, 'one generated id per object: where an id from generate_dv_id / generate_rowset_id is consumed inside a loop (one '
+                 'delete vector per touched row-set, one row-set per flush), the generator is called inside that same loop; an id '
+                 'hoisted out of the loop is shared by every object of the commit, and the version manager\'s pools are keyed by '
+                 '(table, id) only')
+    n_gen = 0
+    for bd in prog.bodies.values():
+        gens = [c for c in bd.calls if re.search(r'SecondaryTable::generate_(dv|rowset)_id$', c.fn or '')]
+        for g in gens:
+            n_gen += 1
+            ctx.functions_analysed.add(bd.name)
+            users = [c for c in bd.calls if c is not g and any(a['k'] != 'const' and g.dest['l'] in origin_locals(bd, a['pl']['l'], depth=6) for a in c.args)]
+            looped = [u for u in users if u.bb in bd.reachable_from(bd.succs[u.bb])]
+            bad = [u for u in looped if not (g.bb in bd.reachable_from(bd.succs[u.bb]) and u.bb in bd.reachable_from(bd.succs[g.bb]))]
+            ctx.ob(R5, f'{bd.root}·{g.fn.rsplit("::", 1)[-1]}·fresh-per-object', not bad,
+                   f'{bd.name}: {g.fn.rsplit("::", 1)[-1]} at block {g.bb}; consumers inside a loop: {[u.bb for u in looped]}; '
+                   f'not in the same loop as the generator: {[(u.bb, (u.fn or "").rsplit("::", 1)[-1]) for u in bad]}',
+                   [site(bd, g.bb)] + [site(bd, u.bb) for u in bad[:2]],
+                   what=f'{bd.root} draws one id outside a loop and uses it for every object the loop creates: the delete vectors (row-sets) '
+                        'of one commit share an id and overwrite each other in the version manager\'s pool')
+    ctx.floor(R5, n_gen, 2, 'call sites of generate_dv_id / generate_rowset_id')
+
 
 def __places(st):
     from mir import operand_places
